@@ -112,6 +112,21 @@ MAYBE_UNSUPPORTED = [
     ("sparksql", "MSCK REPAIR TABLE t1"),
     ("postgres", "CREATE EXTENSION x"),
 ]
+# look-alikes of every statement kind an extractor handles (rename, drop, create, copy, alter ..) whose names collide with
+# the tables of SUPPORTED; each is tried under every dialect and used where the library itself declares it unsupported
+UNSUPPORTED_CANDIDATES = [
+    "ALTER VIEW t1 RENAME TO w1", "ALTER INDEX t1 RENAME TO w1", "ALTER SCHEMA t1 RENAME TO w1", "ALTER SEQUENCE t1 RENAME TO w1",
+    "ALTER MATERIALIZED VIEW t1 RENAME TO w1", "ALTER DATABASE t1 RENAME TO w1", "ALTER VIEW t2 RENAME TO t1",
+    "DROP INDEX t1", "DROP SCHEMA t1", "DROP FUNCTION t1", "DROP SEQUENCE t1", "DROP DATABASE t1", "DROP ROLE t1", "DROP TYPE t1",
+    "CREATE SCHEMA t1", "CREATE DATABASE t1", "CREATE SEQUENCE t1", "CREATE INDEX t1 ON t2 (a)", "CREATE ROLE t1", "CREATE USER t1",
+    "GRANT SELECT ON t1 TO u1", "REVOKE SELECT ON t1 FROM u1", "COMMENT ON TABLE t1 IS 'x'", "ANALYZE t1", "ANALYZE TABLE t1 COMPUTE STATISTICS",
+    "VACUUM t1", "EXPLAIN SELECT a FROM t1", "EXPLAIN INSERT INTO t1 SELECT a FROM t2", "DESCRIBE t1", "SHOW TABLES", "USE t1", "SET x = 1",
+    "BEGIN", "COMMIT", "ROLLBACK", "CALL t1()", "LOCK TABLE t1 IN EXCLUSIVE MODE", "REFRESH MATERIALIZED VIEW t1", "REFRESH TABLE t1",
+    "MSCK REPAIR TABLE t1", "UNCACHE TABLE t1", "OPTIMIZE t1", "CREATE STAGE t1", "DECLARE c1 CURSOR FOR SELECT a FROM t1",
+    "PREPARE p1 AS SELECT a FROM t1", "EXECUTE p1", "DISCARD ALL", "CLUSTER t1", "REINDEX TABLE t1", "CREATE EXTENSION t1",
+    "DROP EXTENSION t1", "ALTER TABLE t1 OWNER TO u1", "ALTER ROLE t1 RENAME TO w1", "DROP TRIGGER t1 ON t2", "CHECKPOINT", "UNLOAD t1",
+]
+SILENT_QUICK_DIALECTS = ["ansi", "postgres", "sparksql", "snowflake", "tsql", "mysql"]
 SUPPORTED = ["INSERT INTO t1 SELECT a FROM s1", "CREATE TABLE t2 AS SELECT a, b FROM t1 JOIN s2 ON 1 = 1", "SELECT a FROM t2"]
 
 _TOK = re.compile(r"\s+|\w+|'[^']*'|\"[^\"]*\"|`[^`]*`|\{\{|\{%|\}\}|.", re.S)
@@ -248,6 +263,12 @@ def _silent(task):
     return {"bad": bad, "script": script}
 
 
+def _is_unsupported(task):
+    d, sql = task
+    o = outcome(sql, d)
+    return o["kind"] == "library" and o["exc"] == "UnsupportedStatementException"
+
+
 def _nostmt(task):
     dialect, script = task
     o = outcome(script, dialect, silent=True)
@@ -339,14 +360,13 @@ def run(tier: str, opts: dict) -> int:
             else:
                 rep.violation("unparsable-text-not-reported-as-invalid-syntax", {"part": t[0], "dialect": t[1], "sql": t[2], "info": t[3]}, {"signature": s})
     # (d) silent mode
-    unsupported = []
-    for d, sql in MAYBE_UNSUPPORTED:
-        o = outcome(sql, d)
-        if o["kind"] == "library" and o["exc"] == "UnsupportedStatementException":
-            unsupported.append((d, sql))
+    cands = list(MAYBE_UNSUPPORTED) + [(d, u) for d in (SILENT_QUICK_DIALECTS if tier == "quick" else all_dialects()) for u in UNSUPPORTED_CANDIDATES]
+    cands = list(dict.fromkeys(cands))
+    unsupported = [c for c, ok in zip(cands, pmap(_is_unsupported, cands, chunk=16)) if ok]
     stasks = []
     for d, u in unsupported:
-        for n in (1, 2, 3):
+        dedicated = (d, u) in MAYBE_UNSUPPORTED
+        for n in ((1, 2, 3) if dedicated or tier != "quick" else (3,)):
             stmts = SUPPORTED[:n]
             for k in range(n + 1):
                 stasks.append((d, stmts, k, u))
@@ -393,13 +413,14 @@ def run(tier: str, opts: dict) -> int:
         distinct_nontrivial=nontrivial,
         rule=f"(a) {len(SEEDS) + len(QUICK_SEEDS) if tier != 'quick' else len(QUICK_SEEDS)} seeds x every single edit (delete, duplicate, swap-adjacent, insert a, replace by a; alphabet {ALPHABET if tier != 'quick' else quick_alphabet}) at every token, under the seed's dialect and "
         "the sqlparse analyzer (+ansi, + pairs of metacharacter edits for the 12 shortest seeds in thorough); (b) every corpus statement under all 29 analyzers; (c) bracket nesting "
-        "1..30 at 4 positions x 3 analyzers; (d) every library-declared unsupported statement at every position of 1-3 supported statements, silent on/off; non-trivial = inputs that "
+        "1..30 at 4 positions x 3 analyzers; (d) every candidate text (look-alikes of each supported statement kind, colliding table names) x dialect that the library declares unsupported, at every position of 1-3 supported statements, silent on/off; non-trivial = inputs that "
         "got past the parser (result or non-syntax outcome) or come from parts b-d",
         exhaustive=True,
         outcomes=kinds,
         by_part=by_part,
         silent_mode_scripts=len(stasks),
-        unsupported_statements_used=[u for _, u in unsupported],
+        unsupported_statements_used=len(unsupported),
+        unsupported_statement_texts=sorted({u for _, u in unsupported}),
     )
     rep.assumptions += [
         "a neighbourhood of valid SQL (one / two edits from a seed), not all strings",
